@@ -10,8 +10,8 @@
    * `class_of` : the name lists and LAGS / LEADS computed by build_model_definition
      (fsic/parser.py:1046-1075), including its failure modes on symbol lists no parser produces
      (non-integer lag entries, min_lags=None).
-   * `default_range` : the periods SolverMixin.iter_periods yields when neither start nor end is given
-     (fsic/core/interfaces.py:309-323), for a span of n distinct labels. *)
+   * `default_range` : the positions SolverMixin.iter_periods yields when neither start nor end is given
+     (fsic/core/interfaces.py:309-339), for a span of n labels. *)
 From Coq Require Import String Ascii List Bool ZArith.
 Import ListNotations.
 Require Import PyBase Symbols Merge ParseEq.
@@ -122,19 +122,14 @@ Definition class_of (syms : list symbol) (o : bopts) : outcome mclass :=
     end
   end.
 
-(* ---------- SolverMixin.iter_periods with start = end = None on a span of n distinct labels ----------
-   start = span[lags]; end = span[-1 - leads]; range(locate(start), locate(end) + 1); on distinct labels
-   locate(span[i]) = i.  Negative lags / large leads wrap or fail exactly as Python indexing does. *)
+(* ---------- SolverMixin.iter_periods with start = end = None on a span of n labels (7cd6323) ----------
+   the defaults are POSITIONS: first = lags (IndexError when lags >= n), last = n - 1 - leads (IndexError when negative);
+   range(first, last + 1).  No label is looked up, so the labels need not be distinct and nothing wraps. *)
 Definition default_range (n : nat) (lags leads : Z) : outcome (list Z) :=
   if (n =? 0)%nat then Raise (SolutionError None)
-  else match py_pos n lags with
-       | None => Raise IndexError
-       | Some a =>
-         match py_pos n (-1 - leads)%Z with
-         | None => Raise IndexError
-         | Some b => Ret (map (fun i => (Z.of_nat a + Z.of_nat i)%Z) (seq 0 (Z.to_nat (Z.of_nat b + 1 - Z.of_nat a))))
-         end
-       end.
+  else if (Z.of_nat n <=? lags)%Z then Raise IndexError
+  else if (Z.of_nat n - 1 - leads <? 0)%Z then Raise IndexError
+  else Ret (map (fun i => (lags + Z.of_nat i)%Z) (seq 0 (Z.to_nat (Z.of_nat n - leads - lags)))).
 
 (* ---------- the declarative side: what the script says ---------- *)
 (* the terms of a statement that become symbols (verbatim terms inside an equation never do), typed as
@@ -172,23 +167,6 @@ Fixpoint verbatim_blocks (p : list stmt) : list symbol :=
   | SVerb e c :: r => verbatim_symbol e c :: verbatim_blocks r
   | SEq _ _ _ _ :: r => verbatim_blocks r
   end.
-
-(* guard of finding #19: inside one statement no call `x(` comes after a non-function mention of the same name x
-   (there the FUNCTION symbol overwrites the variable / parameter / error symbol in place) *)
-Definition nonfn_named (x : string) (t : term) : bool :=
-  named x t && symbol_term t && negb (type_eqb (ttype t) TFunction).
-Fixpoint fn_ok (pre ts : list term) : bool :=
-  match ts with
-  | [] => true
-  | t :: r => (if type_eqb (ttype t) TFunction then negb (existsb (nonfn_named (tname t)) pre) else true)
-              && fn_ok (pre ++ [t])%list r
-  end.
-Definition stmt_fn_ok (st : stmt) : bool :=
-  match st with
-  | SEq l r _ _ => fn_ok [] (map (replace_type TEndogenous) l ++ map (replace_type TExogenous) r)%list
-  | SVerb _ _ => true
-  end.
-Definition fn_guard (p : list stmt) : bool := forallb stmt_fn_ok p.
 
 (* terms as process_term_match builds them: index None exactly for FUNCTION and KEYWORD terms *)
 Definition wf_term_b (t : term) : bool :=
